@@ -3,6 +3,7 @@ import MysyncModel.App.Recovery
 import MysyncModel.App.Switchover
 import MysyncModel.App.ActiveNodes
 import MysyncProofs.Lemmas.GtidLemmas
+import MysyncProofs.Lemmas.SwitchoverLemmas
 
 namespace RecoveryLemmas
 open NS Gtid Recovery
